@@ -179,6 +179,28 @@ Proof.
   apply Z.ltb_lt in H1. apply Z.ltb_ge in H2. apply Z.ltb_ge. lia.
 Qed.
 
+(* the dictionary lists the phase sets in order of first occurrence *)
+Lemma keys_dict_build : forall l d,
+  map fst (dict_build l d) =
+  fold_left (fun ks (e : key * var) => if existsb (key_eqb (fst e)) ks then ks else ks ++ [fst e]) l (map fst d).
+Proof.
+  induction l as [|[k v] l IH]; intros d; unfold dict_build in *; cbn [fold_left fst snd]. reflexivity.
+  rewrite IH, keys_dict_add. reflexivity.
+Qed.
+Lemma existsb_some : forall i zs, existsb (key_eqb (Some i)) (map Some zs) = zmem i zs.
+Proof. induction zs as [|z zs IH]; cbn [map existsb zmem key_eqb]. reflexivity. rewrite IH. reflexivity. Qed.
+Lemma keys_ents : forall hs zs,
+  fold_left (fun ks (e : key * var) => if existsb (key_eqb (fst e)) ks then ks else ks ++ [fst e]) (ents hs) (map Some zs) =
+  map Some (fold_left (fun acc i => if zmem i acc then acc else acc ++ [i]) (set_ids hs) zs).
+Proof.
+  induction hs as [|r hs IH]; intros zs. reflexivity.
+  rewrite ents_cons, fold_left_app. cbn [set_ids]. unfold ent. destruct (spec_phase_set (r_call r)) as [i|].
+  - cbn [fold_left fst]. rewrite existsb_some. destruct (zmem i zs).
+    + apply IH.
+    + rewrite <- (IH (zs ++ [i])). rewrite map_app. reflexivity.
+  - cbn [fold_left]. apply IH.
+Qed.
+
 Section ChromSpec.
   Variable hs : list vrec.
   Let l := ents hs.
@@ -277,6 +299,15 @@ Section ChromSpec.
     { intro E. apply map_eq_nil in E. apply (members_nonempty i Hi). exact E. }
     destruct (pb_of_vars_spec _ Hne) as (_ & E2 & E3). rewrite E2, E3, pb_of_vars_len, !map_map, !map_length.
     cbn [var_of v_pos]. reflexivity.
+  Qed.
+  Lemma blocks_eq : map snd d = spec_blocks hs.
+  Proof.
+    rewrite (map_canon _ _ G (fun kb => unS (fst kb)) d). 2:{ intros kb Hkb. apply dict_elem. exact Hkb. }
+    assert (Ek : map (fun kb : key * pblock => unS (fst kb)) d = first_ids (set_ids hs)).
+    { rewrite <- (map_map fst unS). unfold d. rewrite keys_dict_build.
+      change (map fst (@nil (key * pblock))) with (map (@Some Z) []). unfold l.
+      rewrite (keys_ents hs []). rewrite map_map. cbn [unS]. rewrite map_id. reflexivity. }
+    rewrite Ek, map_map. reflexivity.
   Qed.
 End ChromSpec.
 
@@ -377,7 +408,7 @@ Proof.
     apply perm_sizes. apply Permutation_sym. apply sort_by_perm. }
   set (phased_recs := filter (fun r => Nat.ltb 1 (own_set_size hs r)) hs).
   unfold l1_row. rewrite Hident. cbn [andb].
-  apply andb_true_iff. split. apply andb_true_iff. split.
+  apply andb_true_iff; split; [apply andb_true_iff; split; [apply andb_true_iff; split|]|].
   - (* counts_ok *)
     unfold counts_ok, spec_of. fold cs. fold hs. fold ids. fold big_ids. fold ssizes. fold phased_recs.
     cbn [s_variants s_het s_hetsnv s_phased s_unphased s_singletons s_blocks s_vmin s_vmax s_phsnv].
@@ -446,4 +477,10 @@ Proof.
     unfold spec_of. fold cs. fold hs. cbn [s_blocklist].
     rewrite Hent. fold l. fold d. unfold d, l. rewrite blocklist_eq.
     apply blocklist_check. intros i. reflexivity.
+  - (* the lengths are those of the independently determined pieces *)
+    unfold pieces_ok, spec_piece_lens. fold cs. fold hs. rewrite <- (blocks_eq hs). rewrite Hent in Eno. rewrite Eno.
+    destruct pieces as [|p0 ps] eqn:Epieces.
+    + destruct (rowfun_lens_nil chrlen st (proj2 Hsz eq_refl)) as (B1 & B2 & B3). rewrite B1, B2, B3. reflexivity.
+    + assert (Hne : st_sizes st <> []). { intro E. apply Hsz in E. discriminate. }
+      destruct (rowfun_lens chrlen st Hne) as (B1 & B2 & B3). rewrite B1, B2, B3, Hlens. cbn [map]. rewrite !Z.eqb_refl. reflexivity.
 Qed.
